@@ -80,7 +80,15 @@ def load_known():
     return data.get('known_findings', [])
 
 
-def finish(check, seed=0, checker_cmd=''):
+def has_new_refutations(check):
+    known = [k for k in load_known() if k.get('property') == check.pid]
+    for o in check.obligations:
+        if not o.ok and not any(k.get('rule') == o.rule and k.get('key') == o.key for k in known):
+            return True
+    return False
+
+
+def finish(check, seed=0, checker_cmd='', ignore_problems=False):
     """Apply floors/controls, match known findings, print the verdict, write evidence; returns the exit status."""
     from .loader import AnalysisError
     pid = check.pid
@@ -104,7 +112,7 @@ def finish(check, seed=0, checker_cmd=''):
                 hit = k
                 break
         (known_hits if hit else new).append((o, hit))
-    if problems and not new:
+    if problems and not new and not ignore_problems:
         # a vacuous / starved rule is an analysis error, unless a refuted obligation already explains it
         raise AnalysisError('; '.join(problems))
     n = len(check.obligations)
